@@ -135,7 +135,7 @@ structure Node where
   heartbeatTimeout : Nat
   termTimeout : Nat
   variant : Variant
-deriving Repr
+deriving DecidableEq, Repr
 
 def u64Max : Nat := 18446744073709551615
 
